@@ -457,13 +457,17 @@ def parse_template(path):
                 key, _, val = d.partition(":")
                 key = key.strip()
                 val = val.strip()
+                ctags = None
+                mt = re.match(r"^(\w+)\[([^\]]*)\]$", key)
+                if mt:
+                    key, ctags = mt.group(1), mt.group(2).split()
                 spec["_last"] = None
                 if key == "props":
                     spec["props"] = val.split()
                 elif key == "ret":
                     spec["ret"] = val
                 elif key in ("requires", "ensures", "decreases", "recommends"):
-                    c = {"kind": key, "text": val, "tline": i + 1}
+                    c = {"kind": key, "text": val, "tline": i + 1, "props": ctags}
                     spec["clauses"].append(c)
                     spec["_last"] = c
                 elif key.startswith("loop "):
@@ -702,7 +706,7 @@ def generate(unit, template_path, canary=False):
                     n = counters.get(kind, 0)
                     counters[kind] = n + 1
                     cid = f"{unit}::{spec['as'] or spec['name']}::{kind}#{n}"
-                    clause_ids.append({"id": cid, "kind": kind, "text": c["text"], "gen_line": len(g.lines) + 1})
+                    clause_ids.append({"id": cid, "kind": kind, "text": c["text"], "gen_line": len(g.lines) + 1, "props": c.get("props")})
                     g.emit(f"        {c['text']},", {"kind": "clause", "file": trel, "line": c["tline"], "id": cid})
             g.emit_mapped(body, spec["file"], line_of(src.text, bo))
             for c in spec["loops"]:
